@@ -341,18 +341,12 @@ fn definite_match(vals: &[&V], op: CompareOp, q: &V) -> bool {
     })
 }
 
-/// The column mixes Int and Float values at magnitudes where i64 -> f64 rounds (|x| >= 2^53): the region of known
-/// finding C14-zone-map-int-float-rounding (the zone map's cross-type comparison sees neighbours as equal).
-fn int_float_rounding(present: &BTreeSet<V>, query: &[&V]) -> bool {
-    let big_f = present.iter().any(|v| match v {
-        V::F(b) => {
-            let x = f64::from_bits(*b);
-            x.is_finite() && x.abs() >= 9_007_199_254_740_992.0
-        }
-        _ => false,
-    });
+/// Region of known finding C14-zone-map-int-float-rounding: the column's min/max summary has seen a finite Float with
+/// |x| >= 2^53 (`seen_big_float`, tracked by the model — the summary never narrows) and an Int with |x| >= 2^53 is
+/// stored or asked for; there the zone map's Int-vs-Float comparison (integer cast to f64) sees neighbours as equal.
+fn int_float_rounding(seen_big_float: bool, present: &BTreeSet<V>, query: &[&V]) -> bool {
     let big_i = present.iter().chain(query.iter().copied()).any(|v| matches!(v, V::Int(i) if i.unsigned_abs() >= (1 << 53)));
-    big_f && big_i
+    seen_big_float && big_i
 }
 
 const OPS: [(CompareOp, &str); 6] = [
@@ -602,12 +596,19 @@ pub fn battery(store: &LpgStore, model: &Model, ids: &IdMap) -> Result<(), Failu
             }
         } else {
             // no backward adjacency: incoming traversal through neighbors()/edges_from() is not offered by this
-            // configuration ("turn off if you only traverse outgoing edges"); it must still not invent edges
-            if !g_in.is_empty() || !n_in.is_empty() {
-                return fail("c14/no-backward/incoming-nonempty", format!("edges_from({m}, Incoming) = {g_in:?} without backward adjacency"));
+            // configuration ("turn off if you only traverse outgoing edges"): the answer may be empty, or the truth
+            // (a scan fallback like edges_to has), never anything else
+            if !(g_in.is_empty() || g_in == ei) {
+                return fail("c14/no-backward/edges_from-in", format!("edges_from({m}, Incoming) = {g_in:?} without backward adjacency, incoming edges are {ei:?}"));
             }
-            if g_both != eo || n_both != eno {
-                return fail("c14/no-backward/both", format!("edges_from({m}, Both) = {g_both:?}, outgoing edges are {eo:?}"));
+            let eni: Vec<u64> = sorted(ei.iter().map(|p| p.0).collect());
+            if !(n_in.is_empty() || n_in == eni) {
+                return fail("c14/no-backward/neighbors-in", format!("neighbors({m}, Incoming) = {n_in:?} without backward adjacency, model {eni:?}"));
+            }
+            let eb = sorted(eo.iter().chain(g_in.iter()).copied().collect::<Vec<_>>());
+            let enb: Vec<u64> = sorted(eno.iter().chain(n_in.iter()).copied().collect());
+            if g_both != eb || n_both != enb {
+                return fail("c14/no-backward/both", format!("edges_from({m}, Both) = {g_both:?}, outgoing {eo:?} + incoming as reported {g_in:?}"));
             }
         }
     }
@@ -632,7 +633,7 @@ pub fn battery(store: &LpgStore, model: &Model, ids: &IdMap) -> Result<(), Failu
             for (op, opname) in OPS {
                 if definite_match(&vals, op, q) && !guard("node_property_might_match", || store.node_property_might_match(&pk, op, &qv))? {
                     return fail(
-                        if int_float_rounding(&present, &[q]) {
+                        if int_float_rounding(model.big_float_seen.contains(&(false, k)), &present, &[q]) {
                             format!("c14/might_match/int-float-rounding-2^53/{opname}")
                         } else {
                             format!("c14/might_match/{opname}/false-negative")
@@ -698,7 +699,7 @@ pub fn battery(store: &LpgStore, model: &Model, ids: &IdMap) -> Result<(), Failu
                 .collect();
             if let Some(kind) = diff_kind(&got, &exp, live_n, dead_n) {
                 let bounds_q: Vec<&V> = lo.iter().chain(hi.iter()).collect();
-                let sig = if got.is_empty() && int_float_rounding(&present, &bounds_q) {
+                let sig = if got.is_empty() && int_float_rounding(model.big_float_seen.contains(&(false, k)), &present, &bounds_q) {
                     "c14/find_nodes_in_range/int-float-rounding-2^53".to_string()
                 } else if got.is_empty() {
                     "c14/find_nodes_in_range/pruned-existing-match".to_string()
@@ -781,7 +782,7 @@ pub fn battery(store: &LpgStore, model: &Model, ids: &IdMap) -> Result<(), Failu
             for (op, opname) in OPS {
                 if definite_match(&vals, op, &q) && !guard("edge_property_might_match", || store.edge_property_might_match(&pk, op, &qv))? {
                     return fail(
-                        if int_float_rounding(&present, &[&q]) {
+                        if int_float_rounding(model.big_float_seen.contains(&(true, k)), &present, &[&q]) {
                             format!("c14/edge_might_match/int-float-rounding-2^53/{opname}")
                         } else {
                             format!("c14/edge_might_match/{opname}/false-negative")
